@@ -174,6 +174,7 @@ pub fn spec_c01() -> PropSpec {
     let mut pf = Profile::base();
     pf.durs = [5, 2, 2, 0];
     pf.coarse_hash_pct = 25;
+    pf.sym_hash_pct = 25;
     PropSpec {
         id: "C01",
         profile: pf,
